@@ -221,6 +221,7 @@ func runC14Mcrew(c *sim.Ctx, t *testing.T) {
 		retEmit  = map[string]int{}
 		procErrs []string
 	)
+	unfinished := false
 	rets := make([][]string, nclients) // emitted ids seen in Process return values (per client, task-local)
 	leak := sim.Bubble(c, t, func(s *sim.Sched) {
 		s.Horizon = 30 * time.Second
@@ -264,6 +265,14 @@ func runC14Mcrew(c *sim.Ctx, t *testing.T) {
 			})
 		}
 		s.Run()
+		if !s.Quiescent() {
+			// step or time budget used up with requests still in flight (a parked task
+			// may hold the crew lock): nothing can be read, nothing is asserted
+			unfinished = true
+			cancel()
+			s.Drain(800)
+			return
+		}
 		// quiescent: read the crew through the service's own API
 		final = map[string][]string{}
 		for mid, m := range svc.crew.Copy().Machines {
@@ -300,8 +309,9 @@ func runC14Mcrew(c *sim.Ctx, t *testing.T) {
 		b, _ := json.Marshal(plans)
 		return fmt.Sprintf("crew %v, submitted (per client) %s", mids, b)
 	}
-	if c.Sched.Exhausted {
-		c.Count("step_budget_exhausted")
+	if c.Sched.Exhausted || unfinished {
+		c.Count("budget_exhausted_unfinished")
+		c.Trivial = true
 		return
 	}
 	if len(procErrs) > 0 {
